@@ -27,6 +27,15 @@ def main(argv):
         res = rb.record_domain(inputs, d, jobs=args.jobs, shards=args.jobs, stages=True, heavy=70)
         stat = evaluate(res, "C06", args.jobs)
         out = explore(res, args.jobs)
+        from . import tracefam
+
+        tr = tracefam.run_traces(tracefam.trace_inputs(args.tier, args.seed) if not args.replay else inputs, "C06", d, args.jobs)
+        for v in tr["viol"]:
+            for clause in v["bad"]:
+                if clause.startswith("C06/"):
+                    rep.violation("after-primitive/" + clause[4:], {"id": v["id"], "event": v["event"]}, detail={"failed": v["bad"]})
+        stat["states"] += tr["states"]
+        stat["generated"] += tr["generated"]
     finally:
         tlc.cleanup(d)
     for v in stat["viol"]:
